@@ -29,13 +29,30 @@ def jobs(tier):
     return js
 
 
+KK = ["int", "float", "string", "bool"]
+
+
+def key_jobs(tier):
+    js = []
+    pairs = [(0, 0), (0, 2), (2, 0), (1, 3)] if tier == "quick" else [(a, b) for a in range(4) for b in range(4)]
+    for a, b in pairs:
+        js.append({"id": f"O4.composite.{KK[a]}.{KK[b]}", "func": "VerifH_C17_CompositeKey", "conf": {"k0": a, "k1": b},
+                   "_obligation": "O4", "_covers": ["encoded"], "unwind": 40})
+    for klen, xlen in (((3, 4),) if tier == "quick" else ((3, 4), (4, 5))):
+        js.append({"id": f"O5.prefix-end.k{klen}.x{xlen}", "func": "VerifH_C17_PrefixEnd", "conf": {"klen": klen, "xlen": xlen},
+                   "_obligation": "O5", "_covers": ["computed"], "unwind": 40})
+    js.append({"id": "twin.keys", "func": "VerifH_C17_KeysReach", "conf": {}, "_obligation": "vacuity", "_expect": "twin", "_covers": ["end"]})
+    return js
+
+
 PROPERTY = {
     "id": "C17",
     "suites": [
+        {"name": "keys", "pkg": "internal/keys", "files": ["zz_verif_c17keys.go"], "jobs": key_jobs, "unwind": 40, "witnesses": {"quick": 12, "thorough": 32}},
         {"name": "encoding", "pkg": "internal/encoding", "files": ["zz_verif_c17.go"], "jobs": jobs, "unwind": 12},
     ],
     "bounds": {
-        "quick": {"int64/float64/float32/bool": "full width", "string": "length <= 2, arbitrary bytes", "time": "sec in [-2^55,2^55], nsec in [0,1e9)", "suffix bytes": 1, "unwind": 12},
+        "quick": {"int64/float64/float32/bool": "full width", "string": "length <= 2, arbitrary bytes", "time": "sec in [-2^55,2^55], nsec in [0,1e9)", "suffix bytes": 1, "unwind": 12, "composite keys": "2 fields (int16-range ints, float64, strings <= 2 bytes, bool, each nullable) + doc id, asc/desc per field symbolic", "PrefixEnd": "k <= 3 bytes, x <= 4 bytes"},
         "thorough": {"int64/float64/float32/bool": "full width", "string": "length <= 3, arbitrary bytes", "time": "sec in [-2^55,2^55], nsec in [0,1e9)", "suffix bytes": 2, "unwind": 12},
     },
     "assumptions": [
@@ -44,5 +61,5 @@ PROPERTY = {
         "the key-value store compares keys with bytes.Compare (corekv contract)",
         "go/ssa lowering, symgo instruction semantics (validated per explored path against a native run), z3",
     ],
-    "outside_claim": ["strings longer than the bound", "JSON-kind values (see evidence of the json suite when present)", "array kinds"],
+    "outside_claim": ["strings longer than the bound", "JSON-kind values", "array kinds", "composite keys with more than two value components"],
 }
